@@ -258,9 +258,27 @@ def run_exe(exe, cases_path, out_path, env=None, timeout=3600):
     return r.returncode
 
 
-def run_sharded(exe, cases, workdir, tag, shards=14, env=None, timeout=3600):
+def run_sharded(exe, cases, workdir, tag, shards=14, env=None, timeout=3600, interleave=False):
     """Run [exe] over the case list split into shards; returns (lines, failures).
-    failures: list of (global_case_index, stderr_tail) for shards that aborted."""
+    failures: list of (global_case_index, stderr_tail) for shards that aborted.
+    interleave=True deals cases round-robin (spreads expensive cases; only for
+    stateless operations - zone cases stay contiguous so each shard loads few zones)."""
+    if interleave and len(cases) > 400:
+        k = min(shards, (len(cases) + 199) // 200)
+        parts = [cases[i::k] for i in range(k)]
+        outs, fails = [], []
+        flat = [c for p in parts for c in p]
+        lines, fl = run_sharded(exe, flat, workdir, tag, shards=shards, env=env, timeout=timeout, interleave=False)
+        # undo the permutation
+        res = [None] * len(cases)
+        pos = 0
+        back = {}
+        for i in range(k):
+            for j in range(len(parts[i])):
+                res[i + j * k] = lines[pos]
+                back[pos] = i + j * k
+                pos += 1
+        return res, [(back.get(ix, ix), e) for ix, e in fl]
     n = len(cases)
     shards = max(1, min(shards, (n + 199) // 200))
     size = (n + shards - 1) // shards
